@@ -22,7 +22,7 @@
 EXTENDS HeapInv
 
 CONSTANTS MaxVars, MaxBlocks, Arities, FootK
-VARIABLES heap, hp, fp, hi, vars, peak, last, hv
+VARIABLES heap, hp, fp, hi, vars, peak, last, hv, hist
 
 H == [heap |-> heap, hp |-> hp, fp |-> fp, hi |-> hi]
 
@@ -121,11 +121,13 @@ Commit(h, vs, what) ==
   LET v == HeapView(h.heap, h.hp, h.fp, Roots(vs), h.hi) IN
   /\ heap' = h.heap /\ hp' = h.hp /\ fp' = h.fp /\ hi' = h.hi /\ vars' = vs
   /\ peak' = IF v.reach > peak THEN v.reach ELSE peak
-  /\ last' = what
+  /\ last' = what[1]
   /\ hv' = v
+  /\ hist' = Append(hist, what)
 
 Init == /\ heap = <<>> /\ hp = PtrV(0, 0) /\ fp = PtrV(1, 0) /\ hi = 0 /\ vars = <<>> /\ peak = 0 /\ last = "init"
         /\ hv = HeapView(<<>>, PtrV(0, 0), PtrV(1, 0), <<>>, 0)
+        /\ hist = <<>>
 
 \* Let: an object with k fields; field j is an integer or moves variable pick[j] (each variable at most once)
 \* the moved variables (any subset that fits) occupy either the first or the last fields, the others are integers
@@ -142,17 +144,17 @@ Let(k) ==
               vs == [j \in 1..k |-> IF atEnd THEN (IF j > k - n THEN vars[ms[j - (k - n)]] ELSE IntVal)
                                        ELSE (IF j <= n THEN vars[ms[j]] ELSE IntVal)]
               r == StoreFields(H, vs)
-          IN Commit(r[1], Append(HRemove(vars, moved), ObjVal(r[2], k)), "let")
+          IN Commit(r[1], Append(HRemove(vars, moved), ObjVal(r[2], k)), <<"let", k, ms, IF atEnd THEN 1 ELSE 0>>)
 Dup(i) == /\ Len(vars) < MaxVars /\ vars[i].t = "obj"
-          /\ Commit(ShareBlock(H, vars[i].p, 1), Append(vars, vars[i]), "dup")
-Drop(i) == Commit(IF vars[i].t = "obj" THEN EraseBlock(H, vars[i].p) ELSE H, HRemove(vars, {i}), "drop")
+          /\ Commit(ShareBlock(H, vars[i].p, 1), Append(vars, vars[i]), <<"dup", i, <<>>, 0>>)
+Drop(i) == Commit(IF vars[i].t = "obj" THEN EraseBlock(H, vars[i].p) ELSE H, HRemove(vars, {i}), <<"drop", i, <<>>, 0>>)
 Switch(i) == /\ vars[i].t = "obj"
              /\ LET r == LoadFields(H, vars[i].p, vars[i].k)
                 IN /\ Len(vars) - 1 + Len(r[2]) <= MaxVars + 3
-                   /\ Commit(r[1], HRemove(vars, {i}) \o r[2], "switch")
+                   /\ Commit(r[1], HRemove(vars, {i}) \o r[2], <<"switch", i, <<>>, 0>>)
 Next == \/ \E k \in Arities : Let(k)
         \/ \E i \in 1..Len(vars) : Dup(i) \/ Drop(i) \/ Switch(i)
-vars_ == <<heap, hp, fp, hi, vars, peak, last, hv>>
+vars_ == <<heap, hp, fp, hi, vars, peak, last, hv, hist>>
 Spec == Init /\ [][Next]_vars_
 
 \* ---- what is checked
@@ -166,4 +168,5 @@ Bounded == View.F <= MaxBlocks /\ TLCGet("level") <= MaxLevel     \* state const
 LiveHeap == LET lin == View.linearSet
             IN [k \in {x \in DOMAIN heap : (x \div SlotsPerBlock) \notin lin \/ (x % SlotsPerBlock) = 0} |-> heap[k]]
 StateView == <<LiveHeap, hp, fp, vars, peak>>
+
 =============================================================================
